@@ -110,6 +110,9 @@ static void gen_recipe(Rng& r, Recipe& rc, bool allowStream) {
         static const long SZ[] = {1, 15, 16, 17, 255, 256, 257, 4095, 4096, 4097, 65535, 65536, 65537};
         rc.moveAt = r.chance(1, 2) ? r.range(0, nch) : -1;
         for (int i = 0; i < nch; i++) { int w = r.range(0, 9); long n = w <= 5 ? r.pick(SZ) : w == 6 ? -1 : w == 7 ? -2 : w == 8 ? 0 : r.range(1, 3000); rc.chunks.push_back(n); rc.flushAfter.push_back(r.chance(1, 2)); }
+        // the next lengths of the size line: six hex digits from 1 MiB on, seven from 16 MiB on (one such chunk per recipe at most)
+        if (nch > 0 && r.chance(1, 10)) { static const long BIG[] = {1048575, 1048576, 1048577}; rc.chunks[(size_t)r.below((uint64_t)nch)] = r.pick(BIG); }
+        else if (nch > 0 && r.chance(1, 60)) { static const long HUGE_[] = {16777215, 16777216}; rc.chunks[(size_t)r.below((uint64_t)nch)] = r.pick(HUGE_); }
     }
 }
 static std::string recipe_text(const Recipe& rc) {
@@ -191,7 +194,7 @@ static void run_c05(long cases) {
         g_evals++;
         if (!key.empty() && key.rfind("harness", 0) != 0) violation(key, recipe_text(rc) + ": " + key.substr(4) + " " + detail, Json().num("i", idx).str("phase", "c05").str("recipe", recipe_text(rc)).str("detail", detail).done());
         std::string shape = std::string(rc.kind ? "S" : "F") + std::to_string(rc.headers.size()) + std::to_string(rc.cookies.size());
-        if (rc.kind == 0) { size_t b = rc.bodyLen, lg = 0; while (b >>= 1) lg++; shape += "b" + std::to_string(lg); } else { for (long c : rc.chunks) shape += c < 0 ? 'v' : c == 0 ? '0' : c < 16 ? 'a' : c < 256 ? 'b' : c < 4096 ? 'c' : c < 65536 ? 'd' : 'e'; }
+        if (rc.kind == 0) { size_t b = rc.bodyLen, lg = 0; while (b >>= 1) lg++; shape += "b" + std::to_string(lg); } else { for (long c : rc.chunks) shape += c < 0 ? 'v' : c == 0 ? '0' : c < 16 ? 'a' : c < 256 ? 'b' : c < 4096 ? 'c' : c < 65536 ? 'd' : c >= 16777216 ? 'g' : c >= 1048576 ? 'f' : 'e'; }
         g_distinct.add(shape);
         count(rc.kind ? "stream_responses" : "fixed_responses");
         if (g_samples_left > 0 && (n % 37) == 3) { g_samples_left--; sample(wt); }
